@@ -250,6 +250,18 @@ def snapshot() -> Tuple:
             dict(measured.Prefix._by_symbol), dict(measured.Dimension._by_name))
 
 
+def restore(before: Tuple) -> None:
+    """Put the registries back, so that every input is judged from the pristine state (an earlier
+    accepted input must not mask what a later rejected one leaks)."""
+    import measured
+
+    for d, b in zip((measured.Unit._by_name, measured.Unit._by_symbol, measured.Prefix._by_name,
+                     measured.Prefix._by_symbol, measured.Dimension._by_name), before):
+        if d != b:
+            d.clear()
+            d.update(b)
+
+
 def classify(text: str) -> Tuple[str, Any]:
     import measured
     from measured import Quantity, Unit
@@ -286,6 +298,8 @@ def classify(text: str) -> Tuple[str, Any]:
             out.append(("bad", "RecursionError"))
         except Exception as e:  # noqa
             out.append(("bad", f"{type(e).__name__}: {str(e)[:80]}"))
+        finally:
+            restore(before)
     return out[0], out[1]
 
 
